@@ -1,19 +1,8 @@
 \* D5 as implemented: must violate ConnectHonoursContext
 SPECIFICATION SettledSpec
 CONSTANTS
-  NC = 1
-  SASet = {TRUE}
-  OAuthSet = {FALSE}
-  DelSet = {"ok"}
-  PostSet = {"json"}
-  GetSet = {"sse", "405"}
-  InitH = {"A"}
-  HSet = {""}
-  MaxNotify = 0
-  MaxSaEv = 0
-  MaxAuth = 0
-  MaxClose = 1
-  AllowCancel = TRUE
+  NC = 3
+  Profiles <- ProfLeadCancel
   FixCancel = FALSE
   FixStream = FALSE
 INVARIANTS ConnectHonoursContext
